@@ -200,8 +200,42 @@ def run(prog: Program, ctx: Ctx) -> None:  # noqa: PLR0912,PLR0915
         it.stubs.pop(f"{F}.ModuleFinder.append_search_path", None)
     same = len({repr(v) for v in outs.values()}) == 1
     ctx.ob("R1", "order|pth-scan", same and outs.get("sorted") == ["/site", "/x1", "/x2"], f".pth files extend the search paths in sorted order whatever the listing order: {outs}", where(ep))
+    # a package asked for by *path* (the development checkout) wins over a same-named package of a configured search path (the installed release)
+    fs = prog.function(f"{F}.ModuleFinder.find_spec")
+    for layout, files in {
+        "checkout outside the search paths": {"/site/pkg/__init__.py": "", "/checkout/src/pkg/__init__.py": "", "/checkout/src/pkg/mod.py": ""},
+        "checkout with a sub-package": {"/site/pkg/__init__.py": "", "/site/pkg/sub/__init__.py": "", "/checkout/src/pkg/__init__.py": "", "/checkout/src/pkg/sub/__init__.py": ""},
+    }.items():
+        for target in ("/checkout/src/pkg", "/checkout/src/pkg/__init__.py"):
+            fo = finder(["/site"], _vfs(files), "sorted")
+            it.steps = 0
+            try:
+                res = it.call(fs, fo, PP(target), try_relative_path=True)
+                got = describe(res[1]) if isinstance(res, tuple) else str(res)
+            except Raised as r:
+                got = f"raises {r.exc}"
+            want = "Package(pkg, /checkout/src/pkg/__init__.py, stubs=None)"
+            ctx.ob("R2", f"by-path|{layout}|{target}", got == want, f"find_spec(Path('{target}')) with /site on the search paths and {layout}: {got}; the requested directory is {want}", where(fs))
     it.stubs.clear()
     it.vfs = None
+
+    # the loader skips files whose dotted path cannot be a module path: a dot in *any* part (directory `v1.2/`) below a (namespace) package
+    ls = prog.function("_griffe.loader.GriffeLoader._load_submodule")
+    calls_seen: list = []
+    it.stubs["_griffe.loader.GriffeLoader._get_or_create_parent_module"] = lambda _i, _s, _m, subparts, _p: (calls_seen.append(tuple(subparts)), Obj(None, {"members": {}, "set_member": Native(lambda *_a: None)}))[1]
+    it.stubs["_griffe.loader.GriffeLoader._load_module"] = lambda _i, *_a, **_k: Obj(None, {"name": "x"})
+    for subparts in (("mod",), ("sub", "mod"), ("v1.2", "script"), ("sub", "v1.2", "script"), ("sub", "mod.ext"), ("a.b",)):
+        calls_seen.clear()
+        loader = Obj(prog.cls("_griffe.loader.GriffeLoader"), {"submodules": True}, label="loader")
+        it.steps = 0
+        try:
+            it.call(ls, loader, Obj(None, {"name": "ns", "path": "ns", "members": {}}), subparts, PP("/p/ns/" + "/".join(subparts) + ".py"))
+            got = "skipped" if not calls_seen else "loaded"
+        except Raised as r:
+            got = f"raises {r.exc}"
+        want = "skipped" if any("." in part for part in subparts) else "loaded"
+        ctx.ob("R3", f"dotted-part|{'/'.join(subparts)}", got == want, f"sub-module file ns/{'/'.join(subparts)}.py is {got}; a part containing a dot cannot be imported, so expected {want}", where(ls))
+    it.stubs.clear()
 
     # structural: every listing source is order-clean
     mod = prog.module(F)
